@@ -272,6 +272,35 @@ def run(chk):
         for wrap in (lambda x: x, lambda x: {"k": "list", "items": [{"k": "null"}, x]}, lambda x: {"k": "obj", "keys": [[97]], "vals": [x]},
                      lambda x: {"k": "obj", "keys": [[97]], "vals": [{"k": "list", "items": [x]}]}):
             lines.append(value_line(rng, wrap(bad)))
+    # histories: a call that is refused part-way (a non-finite number deep inside) must leave nothing behind -- the same Python object, repaired in place, is then
+    # canonicalized like a fresh copy of it; and calls before do not matter to calls after
+    for i in range(40 if quick else 2000):
+        v = rand_value(rng, 2)
+        inner, exact = build(v)
+        if not exact:
+            continue
+        holder = {"a": [inner, float("nan")], "b": {"c": [float("inf")]}} if i % 2 else [{"k": inner}, [float("nan")]]
+        try:
+            canon(holder)
+            refused = False
+        except Exception:  # noqa
+            refused = True
+        if i % 2:
+            holder["a"][1] = 1
+            holder["b"]["c"][0] = 2
+            tagged = {"k": "obj", "keys": [units("a"), units("b")], "vals": [{"k": "list", "items": [v, {"k": "num", "neg": False, "digits": [1], "n": 1, "int": True}]},
+                                                                            {"k": "obj", "keys": [units("c")], "vals": [{"k": "list", "items": [{"k": "num", "neg": False, "digits": [2], "n": 1, "int": True}]}]}]}
+        else:
+            holder[1][0] = 1
+            tagged = {"k": "list", "items": [{"k": "obj", "keys": [units("k")], "vals": [v]}, {"k": "list", "items": [{"k": "num", "neg": False, "digits": [1], "n": 1, "int": True}]}]}
+        line = {"t": "value", "v": tagged, "perm_ok": True, "utf8_ok": True, "history": "same object after a refused call" + ("" if refused else " (first call was not refused)")}
+        try:
+            out = canon(holder)
+            line.update(ok=True, exc="none", out=units(out))
+        except Exception as e:  # noqa
+            line.update(ok=False, exc=type(e).__name__, out=[])
+        lines.append(line)
+        chk.case(["value-after-refused-call", val_sig(tagged)])
     for i in range(4000 if quick else 200000):
         x = rand_double(rng)
         if isinstance(x, float) and (math.isnan(x) or math.isinf(x) or x == 0):
